@@ -429,3 +429,50 @@ theorem published_probes {c : Cfg} {s : TS} {g : Ghost} (hc : CfgOk c) (h : Inv 
     simp [hk2]
 
 end TV.Strat
+
+namespace TV.Strat
+
+/-- the TTL discipline of a round's `send_probe` log: starts at `first`, a re-issue (the entry
+after an address-in-use outcome) keeps the TTL, every other entry increases it by one.
+`ttlsFrom t log` : the log is well-formed when the next fresh TTL is `t`; returns the next fresh TTL. -/
+def ttlsFrom : Nat → List (Probe × SendOutcome) → Option Nat
+  | t, [] => some t
+  | t, (p, o) :: rest =>
+    if p.ttl = t then (if o = .addrInUse then ttlsFrom t rest else ttlsFrom (t + 1) rest) else none
+
+theorem ttlsFrom_append (t : Nat) (l1 l2 : List (Probe × SendOutcome)) :
+    ttlsFrom t (l1 ++ l2) = (ttlsFrom t l1).bind fun t' => ttlsFrom t' l2 := by
+  induction l1 generalizing t with
+  | nil => simp [ttlsFrom]
+  | cons x xs ih =>
+    obtain ⟨p, o⟩ := x
+    simp only [List.cons_append, ttlsFrom]
+    split
+    · split <;> exact ih _
+    · simp
+
+/-- the log of one iteration: all entries carry TTL `t`, all but the last are address-in-use, the
+last is not — so it consumes exactly one fresh TTL -/
+theorem ttlsFrom_iteration (t : Nat) (lg : List (Probe × SendOutcome)) (hne : lg ≠ [])
+    (hall : ∀ x ∈ lg, x.1.ttl = t)
+    (hinit : ∀ k (h : k + 1 < lg.length), lg[k].2 = .addrInUse)
+    (hlast : (lg.getLast hne).2 ≠ .addrInUse) : ttlsFrom t lg = some (t + 1) := by
+  induction lg with
+  | nil => exact absurd rfl hne
+  | cons x xs ih =>
+    obtain ⟨p, o⟩ := x
+    have hp : p.ttl = t := hall (p, o) (by simp)
+    cases xs with
+    | nil =>
+      simp at hlast
+      simp [ttlsFrom, hp, hlast]
+    | cons y ys =>
+      have ho : o = .addrInUse := by have := hinit 0 (by simp); simpa using this
+      simp only [ttlsFrom, hp, ho, if_true]
+      apply ih (by simp) (fun z hz => hall z (by simp [hz]))
+      · intro k hk
+        have := hinit (k + 1) (by simp at hk ⊢; omega)
+        simpa using this
+      · simpa using hlast
+
+end TV.Strat
